@@ -26,14 +26,42 @@ Canon(t, im) == CASE t = 1 -> <<1, im>> \o Rep(32 * Pop(im), 7) \o Depths(Pop(im
                   [] OTHER -> <<t>> \o Rep(8, 7)
 Body(t, im, L) == SubSeq(Canon(t, im) \o Rep(4, 9), 1, L)
 
-Types     == {1, 2, 3, 4, 5, 255}
+\* Cells no serialiser writes, as raw bytes (d1 d2 data refs), `k` = index the references point to:
+\* flagged exotic with no data at all (with and without level bits), d2 odd without a completion tag, 5..7 references.
+RawCells == << [n |-> "exotic_empty",        c |-> [k \in 0..9 |-> <<8, 0>>],               refs |-> FALSE],
+               [n |-> "exotic_empty_level",  c |-> [k \in 0..9 |-> <<40, 0>>],              refs |-> FALSE],
+               [n |-> "exotic_empty_hashes", c |-> [k \in 0..9 |-> <<24, 0>>],              refs |-> FALSE],
+               [n |-> "exotic_empty_1ref",   c |-> [k \in 0..9 |-> <<9, 0, k>>],            refs |-> TRUE],
+               [n |-> "no_completion_tag_1", c |-> [k \in 0..9 |-> <<0, 1, 0>>],            refs |-> FALSE],
+               [n |-> "no_completion_tag_3", c |-> [k \in 0..9 |-> <<0, 3, 90, 0>>],        refs |-> FALSE],
+               [n |-> "exotic_no_tag",       c |-> [k \in 0..9 |-> <<8, 1, 0>>],            refs |-> FALSE],
+               [n |-> "refs_5",              c |-> [k \in 0..9 |-> <<5, 0, k, k, k, k, k>>], refs |-> TRUE],
+               [n |-> "refs_6",              c |-> [k \in 0..9 |-> <<6, 0, k, k, k, k, k, k>>], refs |-> TRUE],
+               [n |-> "refs_7",              c |-> [k \in 0..9 |-> <<7, 0, k, k, k, k, k, k, k>>], refs |-> TRUE],
+               [n |-> "exotic_refs_7",       c |-> [k \in 0..9 |-> <<15, 0, k, k, k, k, k, k, k>>], refs |-> TRUE] >>
+\* a generic bag (1-byte counters, no index, no checksum, root = cell 0) around the given cells
+RawBag(cells) == LET data == FoldLeft(LAMBDA a, x : a \o x, <<>>, cells) IN
+                 <<181, 238, 156, 114, 1, 1, Len(cells), 1, 0, Len(data), 0>> \o data
+RawRoot  == <<2, 1, 52, 1, 2>>                  \* the StateInit root 00110 with its completion tag, references to cells 1 and 2
+RawPlain == <<0, 2, 90>>
+RawLeaf  == <<0, 0>>
+RawTable(i, pl) ==
+  LET R == RawCells[i]  tl == IF R.refs THEN <<RawLeaf>> ELSE <<>> IN
+  CASE pl = "root" -> <<R.c[1]>> \o tl
+    [] pl = "code" -> <<RawRoot, R.c[3], RawPlain>> \o tl
+    [] pl = "data" -> <<RawRoot, RawPlain, R.c[3]>> \o tl         \* the last cell of the bag when it has no references
+    [] OTHER       -> <<RawRoot, <<1, 1, 192, 3>>, RawPlain, R.c[4]>> \o tl
+
+Types     == {0, 1, 2, 3, 4, 5, 255}          \* 0: the hand-written degenerate descriptors (RawCells) below
 IMasks(t) == IF t # 1 THEN {0} ELSE IF Full THEN 1..7 ELSE {1, 2, 3, 7}
-DMasks(t, im) == IF t = 1 THEN {im, 0} ELSE {0, 1}
-NRefs(t)  == CASE t = 3 -> 0..2 [] t = 4 -> 0..3 [] OTHER -> 0..1
+DMasks(t, im) == IF t = 0 THEN {0} ELSE IF t = 1 THEN {im, 0} ELSE {0, 1}
+NRefs(t)  == CASE t = 0 -> {0} [] t = 3 -> 0..2 [] t = 4 -> 0..3 [] OTHER -> 0..1
 \* lengths in bytes: from "all hashes but no depth" to one byte too many, and the shortest ones
+\* (0 bytes: a cell flagged exotic that has not even its type byte)
 Lens(t, im) == LET n == Len(Canon(t, im)) IN
-               IF t \in {5, 255} THEN {1, 2, 9}
-               ELSE {1, 2} \cup (IF t = 1 THEN (2 + 32 * Pop(im) - 1)..(n + 1) ELSE (n - 3)..(n + 2))
+               IF t = 0 THEN 1..Len(RawCells)
+               ELSE IF t \in {5, 255} THEN {0, 1, 2, 9}
+               ELSE {0, 1, 2} \cup (IF t = 1 THEN (2 + 32 * Pop(im) - 1)..(n + 1) ELSE (n - 3)..(n + 2))
 
 VARIABLES t, im, dm, L, nr, place, out
 vars == <<t, im, dm, L, nr, place, out>>
@@ -43,7 +71,8 @@ Plain  == Cl(BytesToBits(Rep(40, 90)), 0, <<>>, 0)
 Table ==
   LET X(ref) == Cl(BytesToBits(Body(t, im, L)), t, [j \in 1..nr |-> ref], dm)
       tail == IF nr > 0 THEN <<Leaf>> ELSE <<>>
-  IN CASE place = "code"       -> <<Cl(SIBits, 0, <<2, 3>>, dm), X(4), Plain>> \o tail
+  IN CASE place = "root"       -> <<X(2)>> \o tail
+       [] place = "code"       -> <<Cl(SIBits, 0, <<2, 3>>, dm), X(4), Plain>> \o tail
        [] place = "data"       -> <<Cl(SIBits, 0, <<2, 3>>, dm), Plain, X(4)>> \o tail
        [] place = "below_code" -> <<Cl(SIBits, 0, <<2, 3>>, dm), Cl(<<1, 1>>, 0, <<4>>, dm), Plain, X(5)>> \o tail
 Hdr == [magic |-> "generic", idx |-> FALSE, crc |-> FALSE, cache |-> FALSE, size |-> 1, ob |-> 1, hashes |-> FALSE]
@@ -51,9 +80,9 @@ TypeName == CASE t = 1 -> "pruned" [] t = 2 -> "library" [] t = 3 -> "merkle_pro
 LenClass == LET n == Len(Canon(t, im)) IN IF L = n THEN "exact" ELSE IF L < n THEN "short" ELSE "long"
 
 Init == /\ t \in Types /\ im \in IMasks(t) /\ dm \in DMasks(t, im) /\ L \in Lens(t, im) /\ nr \in NRefs(t)
-        /\ place \in {"code", "data", "below_code"} /\ out = "todo"
+        /\ place \in {"root", "code", "data", "below_code"} /\ out = "todo"
 Next == /\ out = "todo" /\ out' = "done" /\ UNCHANGED <<t, im, dm, L, nr, place>>
-        /\ LET B  == Write(Table, <<1>>, Hdr)
+        /\ LET B  == IF t = 0 THEN RawBag(RawTable(L, place)) ELSE Write(Table, <<1>>, Hdr)
                h  == BagRootHash(B)
                ad == IF h = <<>> THEN Rep(32, 17) ELSE h
                f  == StateInitFacts(B64Encode(B), ad)
@@ -62,7 +91,9 @@ Next == /\ out = "todo" /\ out' = "done" /\ UNCHANGED <<t, im, dm, L, nr, place>
                       ELSE IF ~f.keyOK THEN "no_key" ELSE "ACCEPTABLE"
            IN PrintT(<<"VEC", ToJson([kind |-> "bag", boc |-> BytesToHex(B), addr |-> BytesToHex(ad), why |-> why,
                                       want |-> [v |-> IF why = "ACCEPTABLE" THEN "free" ELSE "reject", key |-> ""],
-                                      tamper |-> "exotic_child_" \o TypeName \o "_" \o LenClass,
+                                      tamper |-> IF t = 0 THEN "malformed_bag_" \o RawCells[L].n
+                                                 ELSE IF L = 0 THEN "malformed_bag_exotic_empty"
+                                                 ELSE "exotic_child_" \o TypeName \o "_" \o LenClass,
                                       t |-> t, im |-> im, dm |-> dm, len |-> L, nrefs |-> nr, place |-> place])>>)
 Spec == Init /\ [][Next]_vars
 =============================================================================
